@@ -262,6 +262,11 @@ def o6(tier):
     return _shared(lambda: C10.o4(tier), 'O6', 'shared with C10-O4: on SQLite re-saving a message (the own-copy confirmation) writes every column from its own field')
 
 
+def o9(tier):
+    from props import C09
+    return _shared(lambda: C09.sqlite_columns(tier), 'O9', 'shared with C09-O2: on SQLite the snapshot carries the exporter secrets of ALL epochs of the group, so a message of an earlier epoch that arrives after a rollback is still decryptable')
+
+
 def o8(tier):
     from props import C04
     return _shared(lambda: C04.o3(tier), 'O8', 'shared with C04-O3: a received message is recorded under the epoch it was created in, so a rollback invalidates exactly the messages of the abandoned epochs (a late message from before the fork stays valid)')
@@ -272,8 +277,42 @@ def o7(tier):
     return _shared(lambda: C10.o8(tier), 'O7', 'shared with C10-O8: on SQLite a saved message is read back with the timestamp / kind / epoch it was saved with')
 
 
+@guard
+def o10(tier):
+    """the configured reordering windows reach OpenMLS unswapped, on the creator's side and on the joiner's side"""
+    ob = Ob('O10', 'create_group and the welcome path build the OpenMLS group with SenderRatchetConfiguration::new(config.out_of_order_tolerance, config.maximum_forward_distance) '
+                   '(in that order: it is OpenMLS\' parameter order) and max_past_epochs(config.max_past_epochs): the tolerated reordering is the configured one for every member',
+            pure=C.PURE_MLS, loop_bound=4, max_paths=40000)
+    ob.eng.model_maps = False
+    cfg = ob.prog.cat.fields('MdkConfig', 'mdk_core')
+    mdk = ob.prog.cat.fields('MDK', 'mdk_core')
+    want = {k: f'*self.{mdk.index("config")}.{cfg.index(k)}' for k in ('out_of_order_tolerance', 'maximum_forward_distance', 'max_past_epochs')}
+    total = hits = 0
+    for spec, args in (('welcomes::parse_serialized_welcome', [Opaque('self', '&MDK<Storage>'), Opaque('bytes', '&[u8]')]),
+                       ('groups::create_group', [Opaque('self', '&MDK<Storage>'), Opaque('creator', '&nostr::key::PublicKey'), Opaque('kps', 'Vec<nostr::Event>'), Opaque('cfg', 'NostrGroupConfigData')])):
+        f = ob.fn(CORE, spec)
+        seen = False
+        for p in ob.explore(f, args):
+            total += 1
+            u = lambda v: uid_of(ob.eng, p.st, v)
+            for e in p.trace:
+                if ev_is(e, 'SenderRatchetConfiguration::new'):
+                    seen = True
+                    hits += 1
+                    ob.require(u(e.args[0]) == want['out_of_order_tolerance'] and u(e.args[1]) == want['maximum_forward_distance'], f'O10/{f.short}/ratchet-window-arguments',
+                               f'{f.short}: SenderRatchetConfiguration::new(out_of_order_tolerance, maximum_forward_distance) receives ({u(e.args[0])}, {u(e.args[1])}), expected '
+                               f'({want["out_of_order_tolerance"]}, {want["maximum_forward_distance"]}): the out-of-order and forward-distance windows are not the configured ones', p)
+                if ev_is(e, 'max_past_epochs') and len(e.args) >= 2:
+                    ob.require(u(e.args[1]) == want['max_past_epochs'], f'O10/{f.short}/max-past-epochs', f'{f.short}: max_past_epochs receives {u(e.args[1])}', p)
+        ob.require(seen, f'O10/{f.short}/no-ratchet-configuration', f'{f.short} builds the group without a sender-ratchet configuration (OpenMLS defaults apply instead of MdkConfig)')
+    ob.require(hits >= 2, 'O10/vacuity', f'configuration sites seen: {hits}')
+    ob.r.bounds = {'paths': 'all', 'loops over key packages': 'unrolled to the engine bound'}
+    ob.r.assumptions.append('OpenMLS 0.8: SenderRatchetConfiguration::new(out_of_order_tolerance, maximum_forward_distance) (parameter order read from the vendored source)')
+    return ob.done(cases=total)
+
+
 def run(tier, seed, only=None):
-    obs = [('O1', o1), ('O2', o2), ('O3', o3), ('O4', o4), ('O5', o5), ('O6', o6), ('O7', o7), ('O8', o8)]
+    obs = [('O1', o1), ('O2', o2), ('O3', o3), ('O4', o4), ('O5', o5), ('O6', o6), ('O7', o7), ('O8', o8), ('O9', o9), ('O10', o10)]
     out = []
     for k, f in obs:
         if only and k not in only:
